@@ -297,7 +297,39 @@ def r153(ctx):
         bad = [r for r in fv.success_sites() if r["block"] in after]
         ctx.ob("R15.3", bool(pe) and not bad, f"{fb.name}/mark-persisted", "forget_channel can return Ok with a raised mark that was not persisted",
                where=f"{fb.file}:{o.line}", sample="mark write -> update_node -> return")
-    # when the channel is found (stub or ready) the mark is raised unless already >= oid: the write dominates removal of a stub
+    # whenever a channel is forgotten - the ready channel's forget succeeded, or a stub is removed - the mark has been
+    # raised to its id, or was already at least that high
+    wblocks = {bi for (bb, bi, idx, o) in ws}
+    high = set()        # edges taken when oid <= mark (comparison `oid > mark` false)
+    for bi2 in sorted(fv.live_blocks()):
+        if fb.term(bi2).kind != "switch":
+            continue
+        for tg, at in atoms.edge_atoms(fv, bi2):
+            if at is None:
+                continue
+            # the edge whose condition is  oid(channel_id) - mark <= 0
+            if at[0] == "le" and at[2] == 0 and len(at[1]) == 2:
+                co = {("oid" if "ChannelId::oid(" in sym[0] else ("mark" if "dbid_high_water_mark" in (sym[1] or sym[0]) else "?")): k for sym, k in at[1]}
+                if co.get("oid") == 1 and co.get("mark") == -1:
+                    high.add((bi2, tg))
+    forget_ok = set()
+    for bj, c in fb.calls():
+        if c.callee and c.callee.name == LS + "channel::Channel::forget":
+            forget_ok |= fv.result_edges(bj, c, "ok")
+    succ_blocks = [r["block"] for r in fv.success_sites()]
+    bad = []
+    for (u, v) in forget_ok:
+        live = fv.reach(v, cut_nodes=wblocks, cut_edges=high)
+        bad += [sb for sb in succ_blocks if sb in live]
+    ctx.ob("R15.3", bool(forget_ok) and bool(wblocks) and not bad, f"{fb.name}/ready-raises-mark",
+           "forget_channel can return Ok after forgetting a *ready* channel without the high-water mark having been raised to its id: "
+           "once the channel is pruned the same or a lower id can be created again", where=f"{fb.file}:{fb.line}",
+           sample="Channel::forget ok => mark write or oid <= mark before Ok")
+    rm = [bj for bj, c in fb.calls() if c.callee and c.callee.name.endswith("BTreeMap::<K, V, A>::remove")]
+    live0 = R.reach_consistent(fv.named(), [0], cut_nodes=wblocks, cut_edges=high)   # respects the `stub_found` flag
+    ctx.ob("R15.3", bool(rm) and not [x for x in rm if x in live0], f"{fb.name}/stub-raises-mark",
+           "forget_channel can remove a stub without the high-water mark having been raised to its id", where=f"{fb.file}:{fb.line}",
+           sample="stub removal => mark write or oid <= mark first")
     # who may write the mark at all
     R.who_may_write(ctx, "R15.3", "NodeState", "dbid_high_water_mark", {f"{NODE}::forget_channel": "raised on forget"}, floor=1)
     # the mark survives a restart: stored entry <- live field, restore argument <- stored entry, restored slot <- argument
